@@ -97,6 +97,19 @@ func EncodeFrame(method byte, payload []byte) ([]byte, error) {
 	return out, nil
 }
 
+// RawFrame builds a frame with a correct checksum around an arbitrary body: the
+// envelope is honest, the codec stream inside need not be.
+func RawFrame(method byte, body []byte, dataSize uint32) []byte {
+	out := make([]byte, frameHdr, frameHdr+len(body))
+	out[16] = method
+	binary.LittleEndian.PutUint32(out[17:], uint32(len(body)+9))
+	binary.LittleEndian.PutUint32(out[21:], dataSize)
+	out = append(out, body...)
+	sum := checksum(out[16:])
+	copy(out[:16], sum[:])
+	return out
+}
+
 // lz4Literals encodes data as a single literal-only LZ4 sequence.
 func lz4Literals(p []byte) []byte {
 	var out []byte
